@@ -29,10 +29,5 @@
 /// `String::cmp` is byte-wise lexicographic, which for UTF-8 is code-point order (ASSUMED std contract)
 #[verifier::external_body] pub fn __str_cmp(a: &Arc<String>, b: &Arc<String>) -> (r: Ordering)
     ensures r == str_cmp(a@, b@) { a.cmp(b) }
-pub assume_specification<T, E>[Result::<T, E>::unwrap_or](r: Result<T, E>, d: T) -> (o: T)
-    ensures o == (match r { Ok(v) => v, Err(_) => d });
 pub assume_specification<T: Clone>[<T as ToOwned>::to_owned](a: &T) -> (o: T) ensures vstd::pervasive::cloned::<T>(*a, o);
 pub assume_specification [std::cmp::Ordering::reverse] (o: Ordering) -> (r: Ordering) ensures Some(r) == rev_ord(Some(o));
-pub assume_specification<T, F: FnOnce() -> Option<T>>[Option::<T>::or_else](a: Option<T>, f: F) -> (r: Option<T>)
-    requires a is None ==> f.requires(()),
-    ensures a is Some ==> r == a, a is None ==> f.ensures((), r);
